@@ -1163,6 +1163,11 @@ func (e *Engine) resolveType(pkg *types.Package, x ast.Expr) types.Type {
 				return types.NewSlice(in)
 			}
 		}
+	case *ast.MapType:
+		k, v := e.resolveType(pkg, t.Key), e.resolveType(pkg, t.Value)
+		if k != nil && v != nil {
+			return types.NewMap(k, v)
+		}
 	}
 	return nil
 }
